@@ -129,8 +129,46 @@ def _cfun0(name, args, any_complex):
     raise Unsupported(f"math function {name}")
 
 
+def _hval(*key):
+    """Deterministic pseudo-random value in [0.5, 1.5) from a key."""
+    import hashlib
+
+    h = hashlib.sha1(repr(key).encode()).digest()
+    return 0.5 + int.from_bytes(h[:6], "little") / 2**48
+
+
+class LazyArray:
+    """An array nobody declared in the fragment being interpreted (kernel argument, table defined elsewhere):
+    reads give deterministic pseudo-random values, writes are recorded."""
+
+    def __init__(self, name):
+        self.name = name
+        self.written = {}
+        self.reads = 0
+        self.writes = 0
+
+    def get(self, idx):
+        k = tuple(int(i) for i in idx)
+        self.reads += 1
+        if k in self.written:
+            return self.written[k]
+        return _hval(self.name, k)
+
+    def set(self, idx, v, add=False):
+        k = tuple(int(i) for i in idx)
+        self.writes += 1
+        if add:
+            v = self.get(idx) + v
+        self.written[k] = v
+
+
 class Interp:
-    def __init__(self, env=None, arrays=None, strict=True):
+    def __init__(self, env=None, arrays=None, strict=True, lazy=False):
+        self.lazy = lazy
+        self.lazy_arrays = {}
+        self._init(env, arrays, strict)
+
+    def _init(self, env=None, arrays=None, strict=True):
         self.scopes = [dict(env or {})]
         self.arrays = dict(arrays or {})
         self.strict = strict
@@ -147,6 +185,8 @@ class Interp:
                 return s[name]
         if name in self.arrays:
             return self.arrays[name]
+        if name in self.lazy_arrays:
+            return self.lazy_arrays[name]
         raise AstError(f"use of undeclared symbol {name}")
 
     def assign_scalar(self, name, v):
@@ -155,6 +195,30 @@ class Interp:
                 s[name] = v
                 return
         raise AstError(f"assignment to undeclared symbol {name}")
+
+    def _array(self, name):
+        try:
+            arr = self.lookup(name)
+        except AstError:
+            if not self.lazy:
+                raise
+            arr = self.lazy_arrays[name] = LazyArray(name)
+        if not isinstance(arr, (Array, LazyArray)):
+            raise AstError(f"subscript of non-array {name}")
+        return arr
+
+    def snapshot(self):
+        """Observable state after running a fragment: top-level scalars, declared arrays and writes to outside arrays."""
+        out = {}
+        for k, v in self.scopes[0].items():
+            if isinstance(v, Array):
+                out["array:" + k] = [complex(x) for x in v.data.tolist()]
+            elif v is not None:
+                out["scalar:" + k] = complex(v)
+        for k, v in self.lazy_arrays.items():
+            if v.written:
+                out["written:" + k] = {str(i): complex(x) for i, x in sorted(v.written.items())}
+        return out
 
     # ---- expressions
     def ev(self, e):
@@ -165,8 +229,14 @@ class Interp:
         if isinstance(e, L.LiteralInt):
             return int(e.value)
         if isinstance(e, L.Symbol):
-            v = self.lookup(e.name)
-            if isinstance(v, Array):
+            try:
+                v = self.lookup(e.name)
+            except AstError:
+                if not self.lazy:
+                    raise
+                v = 1 if e.dtype == L.DataType.INT else _hval("scalar", e.name)
+                self.scopes[0][e.name] = v
+            if isinstance(v, (Array, LazyArray)):
                 raise AstError(f"array {e.name} used as a scalar")
             if v is None:
                 raise AstError(f"read of {e.name} before it was written")
@@ -178,9 +248,7 @@ class Interp:
         if isinstance(e, L.Not):
             return not bool(self.ev(e.arg))
         if isinstance(e, L.ArrayAccess):
-            arr = self.lookup(e.array.name)
-            if not isinstance(arr, Array):
-                raise AstError(f"subscript of non-array {e.array.name}")
+            arr = self._array(e.array.name)
             idx = [self.ev(i) for i in e.indices]
             self.n_access += 1
             return arr.get(idx)
@@ -302,9 +370,7 @@ class Interp:
                 if not isinstance(e, (L.Assign, L.AssignAdd)):
                     raise Unsupported(type(e).__name__)
                 if isinstance(lhs, L.ArrayAccess):
-                    arr = self.lookup(lhs.array.name)
-                    if not isinstance(arr, Array):
-                        raise AstError(f"subscript of non-array {lhs.array.name}")
+                    arr = self._array(lhs.array.name)
                     idx = [self.ev(i) for i in lhs.indices]
                     self.n_access += 1
                     arr.set(idx, v, add)
